@@ -22,7 +22,7 @@ Definition store := nat -> list T.
 Definition upd (s : store) (i : nat) (v : list T) : store :=
   fun j => if Nat.eqb j i then v else s j.
 
-Inductive outcome := Ok (s : store) | OutOfFuel | ShapeErr.
+Inductive outcome := Ok (s : store) | OutOfFuel | ShapeErr | CastErr.
 Definition bind (m : outcome) (k : store -> outcome) : outcome :=
   match m with Ok s => k s | e => e end.
 
